@@ -195,12 +195,13 @@ func genSizes(r *rand.Rand, mp, w0 uint32, big bool) []int {
 
 var extCodes = []uint32{2, 3, 7, 255, 1 << 31, 0xffffffff}
 
-func genFlowChans(r *rand.Rand) ([]*chan35, [][]streamPlan, string) {
+func genFlowChans(r *rand.Rand) ([]*chan35, [][]streamPlan, string, string) {
 	nch := 1 + r.IntN(3)
 	chans := make([]*chan35, nch)
 	plans := make([][]streamPlan, nch)
-	var cls []string
-	budget := 260000 // planned bytes per case on tiny channels
+	var cls, dkey []string
+	budget := 420000   // planned bytes per case
+	const trips = 4500 // window round trips per case
 	for i := 0; i < nch; i++ {
 		c := &chan35{idx: i, name: fmt.Sprintf("c%d", i), muxOpens: r.IntN(2) == 0, streams: map[uint32]*stream35{}}
 		c.peerID = mon.Pick(r, []uint32{uint32(100 + i), uint32(i), 0xfffffff0 + uint32(i), uint32(r.Uint32()&^3) + uint32(i)})
@@ -249,17 +250,26 @@ func genFlowChans(r *rand.Rand) ([]*chan35, [][]streamPlan, string) {
 			}
 		}
 		var sc []string
+		// bound the number of window round trips a channel needs (bytes per
+		// trip = min(target window, max packet)): the case must stay cheap
+		unit := int(c.wt)
+		if int64(c.mp) < int64(unit) {
+			unit = int(c.mp)
+		}
+		chanBudget := unit * trips / nch
+		if chanBudget > budget {
+			chanBudget = budget
+		}
 		for _, code := range codes {
 			sp := streamPlan{code: code, sizes: genSizes(r, c.mp, c.w0, big)}
 			tot := 0
 			for j, n := range sp.sizes {
-				if !big && n > budget {
-					n = budget % 977
+				if n > chanBudget {
+					n = chanBudget
 					sp.sizes[j] = n
 				}
-				if !big {
-					budget -= n
-				}
+				chanBudget -= n
+				budget -= n
 				tot += n
 				sc = append(sc, sizeClass(n, c.mp, c.w0))
 			}
@@ -278,15 +288,25 @@ func genFlowChans(r *rand.Rand) ([]*chan35, [][]streamPlan, string) {
 		chans[i] = c
 		sort.Strings(sc)
 		sc = uniq(sc)
-		wcls := "tiny"
+		wcls := fmt.Sprintf("tiny(w0=%d,mp=%d,wt=%d)", c.w0, c.mp, c.wt)
+		dcls := "tiny"
 		if big {
-			wcls = fmt.Sprintf("big(w0=%d,mp=%d)", c.w0, c.mp)
-		} else if c.w0 <= 1 {
-			wcls = fmt.Sprintf("w0=%d", c.w0)
+			wcls = fmt.Sprintf("big(w0=%d,mp=%d,wt=%d)", c.w0, c.mp, c.wt)
+			dcls = "big"
+		} else if c.w0 <= 1 || c.w0 == c.mp {
+			dcls = map[uint32]string{0: "w0=0", 1: "w0=1", c.mp: "w0=mp"}[c.w0]
+		}
+		large := ""
+		for _, x := range sc {
+			if x == "<20k" || x == "<=200k" {
+				large = " large-write"
+			}
 		}
 		cls = append(cls, fmt.Sprintf("%s open=%v codes=%s pol=%d sizes=%s", wcls, c.muxOpens, codeSet(codes), c.policy, strings.Join(sc, ",")))
+		dkey = append(dkey, fmt.Sprintf("%s open=%v codes=%s pol=%d%s", dcls, c.muxOpens, codeSet(codes), c.policy, large))
 	}
-	return chans, plans, fmt.Sprintf("flow n=%d | %s", nch, strings.Join(cls, " | "))
+	sort.Strings(dkey[1:])
+	return chans, plans, fmt.Sprintf("flow n=%d | %s", nch, strings.Join(cls, " | ")), fmt.Sprintf("flow n=%d | %s", nch, strings.Join(dkey, " | "))
 }
 
 func uniq(s []string) []string {
@@ -308,7 +328,7 @@ func codeSet(codes []uint32) string {
 }
 
 func flowCase(m *mon.M, i int64, r *rand.Rand) {
-	chans, plans, cls := genFlowChans(r)
+	chans, plans, cls, dkey := genFlowChans(r)
 	pipe := NewPipe(1 << 16)
 	fc := NewFlowChecker(true, false)
 	pipe.Observe = fc.Observe
@@ -617,7 +637,7 @@ func flowCase(m *mon.M, i int64, r *rand.Rand) {
 	m.Count("trickle_steps_completed", trickles)
 	m.Count("writer_goroutines", nWriters)
 	m.Eval()
-	m.Distinct(cls)
+	m.Distinct(dkey)
 	if i < 3 {
 		m.Sample(map[string]any{"workload": "flow", "case": cls, "parked_writers_seen": parks, "trickle_steps": trickles, "peer": peer.state()})
 	}
